@@ -47,7 +47,7 @@ def register(M):
             return s.set(items=tuple((k, ex.call_value(a[1], [v])) for k, v in s.items))
         if orig_smap is not None:
             return orig_smap(ex, info, a, dty)
-        raise Inconclusive('StreamExt::map on %r' % (s,))
+        return M.uninterpreted(ex, info, a, dty)
 
     @reg('TryStreamExt::try_fold')
     def _(ex, info, a, dty):
